@@ -23,7 +23,9 @@ STEP_CAP = 200000
 EVENTS = ("shutdown_write", "local-close", "peer-eof", "peer-close", "link-eof", "link-reset", "transport-close", "none")
 PHASES = ("event-first", "racing", "call-first")
 RULE = ("Each run: event in %r x phase in %r x stream (stdout/stderr) x size (1 B..256 KiB, relative to a 32 KiB window) x "
-        "channel timeout (None / 0 / 1 s) x peer reading or not x sender role; schedule and latency from the seed." % (EVENTS, PHASES))
+        "channel timeout (None / 0 / 1 s) x peer reading or not x sender role; one run in four instead: a timed sendall woken "
+        "repeatedly without window (WINDOW_ADJUST of 0 bytes), or two sendalls blocked on one exhausted window and one large read "
+        "by the peer; schedule and latency from the seed." % (EVENTS, PHASES))
 COMPONENTS = {"real": ["both Transports/Channels unmodified, public API"], "simulated": ["socket", "clock", "scheduling", "entropy"]}
 ASSUMPTIONS = ["T_CALL = 5 virtual seconds after the event and at most %d scheduler steps of the calling task; a call with no "
                "timeout, an exhausted window, no reader and no event is legitimately blocked and is not generated" % STEP_CAP]
@@ -33,9 +35,105 @@ def sim_kw(seed):
     return {"max_steps": 3_000_000, "max_time": 3600.0}
 
 
+def special(sim, kind, lat):
+    """Two shapes outside the event x phase grid.
+    window-less-wakeups: timed sendall on an exhausted window whose waiters are woken again and again without
+      any window becoming available (the peer sends WINDOW_ADJUST of 0 bytes): it must still time out.
+    two-senders: two sendalls blocked on an exhausted window, then ONE large read by the peer (one adjustment
+      covering both): both must return and deliver."""
+    from paramiko import Message
+    W = 32768
+    w = Workload(sim, latency=lat, timeout=None, client_kw={"default_window_size": W}, server_kw={"default_window_size": W})
+    w.connect()
+    ch, sch = w.open(ChanSpec())
+    role = ("client", "server")[sim.choose(2)]
+    src, dst = (ch, sch) if role == "client" else (sch, ch)
+    stderr = bool(sim.choose(2))
+    send = src.sendall_stderr if stderr else src.sendall
+    desc = {"shape": kind, "sender": role, "stream": "stderr" if stderr else "stdout", "latency": lat}
+    src.settimeout(None)
+    send(b"f" * W)                      # the peer's window is now used up and nobody reads
+    res = {}
+
+    def call(name, n):
+        try:
+            send(b"x" * n)
+            res[name] = "returned"
+        except Exception as e:
+            res[name] = e
+    if kind == "window-less-wakeups":
+        timeout = (0.5, 1.0, 2.0)[sim.choose(3)]
+        period = (0.05, 0.25, 0.4)[sim.choose(3)]
+        desc.update(timeout=timeout, wakeup_period=period)
+        src.settimeout(timeout)
+        t = sim.spawn(lambda: call("a", 100), "sendall")
+        t0 = sim.now
+        n = 0
+        while t.state != core.DONE and sim.now - t0 < timeout + T_CALL + 4 * lat:
+            m = Message()
+            m.add_byte(bytes([93]))
+            m.add_int(dst.remote_chanid)
+            m.add_int(0)
+            dst.get_transport().packetizer.send_message(m)
+            sim.fault("window_adjust_of_zero_bytes")
+            n += 1
+            sim.sleep(period)
+        if t.state != core.DONE:
+            raise Violation(("C25", "timed-sendall-never-times-out", "window-less-wakeups", core.where_parked(t)),
+                            "sendall with timeout %.1f s on an exhausted window has not ended %.1f virtual s later while being "
+                            "woken every %.2f s without any window (%d wake-ups); parked in %s"
+                            % (timeout, sim.now - t0, period, n, core.where_parked(t)), desc)
+        if res.get("a") == "returned":
+            raise Violation(("C25", "returned-without-delivering", "window-less-wakeups"),
+                            "sendall returned although the peer never opened its window", desc)
+        sim.probe("timed_out_despite_wakeups")
+    else:
+        n1, n2 = 1 + sim.choose(300), 1 + sim.choose(300)
+        t1 = sim.spawn(lambda: call("a", n1), "sendall")
+        t2 = sim.spawn(lambda: call("b", n2), "sendall")
+        sim.sleep(0.5 + 2 * lat)
+        if t1.state != core.DONE and t2.state != core.DONE:
+            sim.probe("two_senders_blocked_on_zero_window")
+        dst.settimeout(10.0)
+        got = [0]
+
+        def drain():
+            try:
+                while got[0] < W + n1 + n2:
+                    x = (dst.recv_stderr if stderr else dst.recv)(1 << 20)
+                    if not x:
+                        return
+                    got[0] += len(x)
+            except Exception:
+                return
+        sim.spawn(drain, "peer-reader")
+        t0 = sim.now
+        while (t1.state != core.DONE or t2.state != core.DONE) and sim.now - t0 < T_CALL + 6 * lat:
+            sim.sleep(0.25)
+        stuck = [t for t in (t1, t2) if t.state != core.DONE]
+        if stuck:
+            raise Violation(("C25", "sendall-never-returns", "two-senders-one-adjust", core.where_parked(stuck[0])),
+                            "%d of 2 sendall calls blocked on an exhausted window are still blocked %.1f virtual s after the "
+                            "peer read everything (peer got %d of %d bytes); parked in %s"
+                            % (len(stuck), sim.now - t0, got[0], W + n1 + n2, core.where_parked(stuck[0])), desc)
+        ssh.quiesce(sim, [w.link], (), settle=0.2, limit=10)
+        bad = [k for k, v in res.items() if v != "returned"]
+        if bad or got[0] != W + n1 + n2:
+            raise Violation(("C25", "returned-without-delivering" if not bad else "sendall-failed-with-reading-peer", "two-senders-one-adjust"),
+                            "results %r; peer received %d of %d bytes" % (res, got[0], W + n1 + n2), desc)
+        sim.probe("two_senders_completed")
+    w.p.close()
+    return {"sample": desc, "nontrivial": True, "case_key": kind + role + str(stderr), "counts": [kind]}
+
+
 def scenario(sim):
     sim.p_switch = (0.02, 0.1, 0.3)[sim.choose(3)]
     lat = (0.0, 0.005, 0.05)[sim.choose(3)]
+    k = sim.choose(8)
+    if k == 0:
+        return special(sim, "window-less-wakeups", lat)
+    if k == 1:
+        return special(sim, "two-senders", lat)
     event = EVENTS[sim.choose(len(EVENTS))]
     phase = PHASES[sim.choose(len(PHASES))]
     stderr = bool(sim.choose(2))
